@@ -12,7 +12,7 @@
    the current form; `_partial` is what holds for both. *)
 From Coq Require Import String ZArith List Bool.
 From DV Require Import Model.PyPrims Gen.ReaderLoops Model.Tokenizer Model.Newick Model.C20Model Model.C20Nexus
-                       Proofs.C20Proofs Proofs.C20NexusProofs Proofs.C20Tok Proofs.C20Newick.
+                       Proofs.C20Proofs Proofs.C20NexusProofs Proofs.C20Tok Proofs.C20Newick Proofs.C20NexusTotal.
 Import ListNotations.
 Close Scope string_scope.
 Open Scope list_scope.
@@ -178,22 +178,39 @@ Theorem prefix_closed_errors_example :
 Proof. exact nexus_prefix_closed_example_l. Qed.
 Print Assumptions prefix_closed_errors_example.
 
-(* nexus_skeleton_total_partial: the scanning loop every block goes through,
-   NexusTokenizer.skip_to_semicolon (guards and fetch primitive taken from the generated loop
-   record), is total from EVERY tokenizer state: with a budget above the number of tokens left + 2
-   it never runs out, never adds tokens, and keeps the stream well-formed.
-   (The full statement, for the whole skeleton on the repaired form, is not proved; see the report.) *)
-Theorem nexus_skeleton_total_partial :
-  forall (F : nat) (st : nstate),
-  stream_ok st -> (n_left st + 2 < F)%nat ->
-  match skip_to_semicolon F st with
-  | ROk st' => stream_ok st' /\ (n_left st' <= n_left st)%nat
-  | RErr _ => True
+(* nexus_skeleton_total: on the REPAIRED form (every recorded defect site in its fixed form,
+   `nfix_all`), for EVERY character list and every choice of the runtime functions, the skeleton
+   ends within its budget 2*|text| + 16 in Ok or DataParseError (or leaves the modelled fragment,
+   RUnm: interleaved / continuous / non-DNA matrices, multistate groups, SYMBOLS, MATCHCHAR):
+   never out of budget (no hang), never AttributeError / TypeError / ValueError / IndexError / a
+   leaked internal exception.  The guards and fetch primitives of all 17 loops are the ones of the
+   GENERATED records, so the proof is re-checked against the current source on every run. *)
+Theorem nexus_skeleton_total :
+  forall (upper lower : Tokenizer.str -> Tokenizer.str) (dval : Z -> option Z) (sym_ok : Z -> bool)
+         (is_float : Tokenizer.str -> bool) (text : Tokenizer.str),
+  match nexus_read upper lower dval sym_ok is_float nfix_all text with
+  | ROk _ => True
+  | RErr e => e = ParseErr
   | RFuel => False
-  | RUnm => False
+  | RUnm => True
   end.
-Proof. exact skip_to_semicolon_total. Qed.
-Print Assumptions nexus_skeleton_total_partial.
+Proof. exact nexus_skeleton_total_l. Qed.
+Print Assumptions nexus_skeleton_total.
+
+(* the same for any token stream and any budget above twice its weight + 8 *)
+Theorem nexus_skeleton_total_tokens :
+  forall (upper lower : Tokenizer.str -> Tokenizer.str) (dval : Z -> option Z) (sym_ok : Z -> bool)
+         (is_float : Tokenizer.str -> bool) (F : nat) (toks : list token * tend),
+  snd toks <> EndFuel -> (forall e, snd toks = EndErr e -> e = ParseErr) ->
+  (2 * wsum (fst toks) + 8 <= F)%nat ->
+  match parse_nexus_stream upper lower dval sym_ok is_float nfix_all F toks with
+  | ROk _ => True
+  | RErr e => e = ParseErr
+  | RFuel => False
+  | RUnm => True
+  end.
+Proof. exact parse_nexus_stream_tot. Qed.
+Print Assumptions nexus_skeleton_total_tokens.
 
 (* ========================================================================================== *)
 (* 5. tokenizer and Newick reader (C02's models Model/Tokenizer.v, Model/Newick.v)             *)
